@@ -90,14 +90,20 @@ fn corpus(ctx: &Ctx) -> Vec<(String, String)> {
         out.push((name, text));
     }
     // a slice of the ST-core corpus: the first case of every feature
-    let mut seen = std::collections::HashSet::new();
-    for c in crate::stcore::families::corpus(false) {
+    // quick: the first case of every feature; thorough: the first four cases of every feature of
+    // the thorough corpus
+    let thorough = ctx.tier == Tier::Thorough;
+    let per_feature = if thorough { 4usize } else { 1 };
+    let mut seen: std::collections::HashMap<(&'static str, String), usize> = std::collections::HashMap::new();
+    for c in crate::stcore::families::corpus(thorough) {
         // programs that are meant not to terminate (F14) need a wall-clock budget to end: not here
         if c.prog.budget_ms.is_some() {
             continue;
         }
-        if seen.insert((c.family, c.feature.clone())) {
-            out.push((format!("stcore:{}:{}", c.family, c.feature), c.text()));
+        let n = seen.entry((c.family, c.feature.clone())).or_insert(0);
+        *n += 1;
+        if *n <= per_feature {
+            out.push((format!("stcore:{}:{}#{}", c.family, c.feature, *n), c.text()));
         }
     }
     out
